@@ -112,6 +112,11 @@ func prepareGenerated(r *runner, prog *MProgram, cfg genConfig, entry func(g *ha
 // prepareStatic generates code for hand-written IDL files (in /verif/harness/<dir>) and copies
 // the hand-written harness file(s) *.go of that directory into the package of `pkgRel`.
 func prepareStatic(r *runner, dir string, idls []string, backend, options, pkgRel string) error {
+	return prepareStaticFiles(r, dir, idls, backend, options, pkgRel, nil)
+}
+
+// prepareStaticFiles: extra may add generated harness files to the package before it is built.
+func prepareStaticFiles(r *runner, dir string, idls []string, backend, options, pkgRel string, extra func(pkgDir string) error) error {
 	bin := filepath.Join(r.scratch, "thriftgo")
 	cmd := exec.Command("go", "build", "-o", bin, ".")
 	cmd.Dir = "/repo"
@@ -129,6 +134,7 @@ func prepareStatic(r *runner, dir string, idls []string, backend, options, pkgRe
 		if err != nil {
 			return err
 		}
+		os.MkdirAll(filepath.Dir(filepath.Join(idl, f)), 0o755)
 		os.WriteFile(filepath.Join(idl, f), b, 0o644)
 	}
 	if backend == "" {
@@ -138,7 +144,7 @@ func prepareStatic(r *runner, dir string, idls []string, backend, options, pkgRe
 	if options != "" {
 		opts += "," + options
 	}
-	gen := exec.Command(bin, "-r", "-g", backend+":"+opts, "-o", mod, filepath.Join(idl, idls[0]))
+	gen := exec.Command(bin, "-r", "-g", backend+":"+opts, "-o", mod, idls[0]) // relative: descriptors record the path as given
 	gen.Dir = idl
 	gen.Env = r.env
 	if out, err := gen.CombinedOutput(); err != nil {
@@ -159,11 +165,25 @@ func prepareStatic(r *runner, dir string, idls []string, backend, options, pkgRe
 	if _, err := os.Stat(pkgDir); err != nil {
 		return &violationError{msg: "generator did not create the package directory " + pkgRel}
 	}
+	// the IDL text, for harnesses that compare against an in-process compilation
+	var tb strings.Builder
+	fmt.Fprintf(&tb, "package %s\n\nvar zzIDLText = map[string]string{\n", filepath.Base(pkgRel))
+	for _, f := range idls {
+		b, _ := os.ReadFile(filepath.Join(src, f))
+		fmt.Fprintf(&tb, "\t%q: %q,\n", f, string(b))
+	}
+	tb.WriteString("}\n")
+	os.WriteFile(filepath.Join(pkgDir, "zz_idltext.go"), []byte(tb.String()), 0o644)
 	ents, _ := os.ReadDir(src)
 	for _, ent := range ents {
 		if strings.HasSuffix(ent.Name(), ".go") {
 			b, _ := os.ReadFile(filepath.Join(src, ent.Name()))
 			os.WriteFile(filepath.Join(pkgDir, "zz_"+ent.Name()), b, 0o644)
+		}
+	}
+	if extra != nil {
+		if err := extra(pkgDir); err != nil {
+			return err
 		}
 	}
 	r.dir = mod
